@@ -80,6 +80,16 @@ Definition fcode_eqb (a b : fcode) : bool :=
 
 Notation cval := (val fcode wdesc).
 Notation ckwl := (kwl fcode wdesc).
+(* monomorphic constructors: the generated case files elaborate an order of magnitude faster with them *)
+Definition cNone : cval := VNone.
+Definition cNat (n : nat) : cval := VNat n.
+Definition cBool (b : bool) : cval := VBool b.
+Definition cWnd (w : wdesc) : cval := VWnd w.
+Definition cFun (f : fcode) : cval := VFun f.
+Definition cOla (o : olakind) : cval := VOla o.
+Definition cOpq (n : nat) : cval := VOpaque n.
+Definition kv (k : string) (v : cval) : string * cval := (k, v).
+
 Definition olakind_eqb (a b : olakind) : bool :=
   match a, b with
   | OlaList, OlaList => true
